@@ -144,6 +144,12 @@ func runCloseCase(cc closeCase) (string, string) {
 		t0 := time.Now()
 		err := c.Close(websocket.StatusCode(cc.Code), string(reason))
 		dur := time.Since(t0)
+		// whatever its arguments and its outcome, the first Close ends the connection: a later CloseNow is refused and I/O fails
+		// (checked before the harness takes the transport away)
+		laterErr := c.CloseNow()
+		wctx2, wcancel2 := context.WithTimeout(context.Background(), 2*time.Second)
+		laterWrite := c.Write(wctx2, websocket.MessageText, []byte("after close"))
+		wcancel2()
 		pend.Close()
 		<-peerDone
 		<-readDone
@@ -189,6 +195,12 @@ func runCloseCase(cc closeCase) (string, string) {
 		}
 		if cc.PendingRead && readErr == nil {
 			return "pending-read-not-failed", "a read pending during Close returned nil"
+		}
+		if !errors.Is(laterErr, net.ErrClosed) {
+			return "close-left-connection-open", fmt.Sprintf("Close(%d, %d-byte reason) returned %v; a CloseNow right after it returned %v (must be refused with net.ErrClosed)", cc.Code, len(reason), err, laterErr)
+		}
+		if laterWrite == nil {
+			return "close-left-connection-open", fmt.Sprintf("Close(%d, %d-byte reason) returned %v; a Write right after it succeeded", cc.Code, len(reason), err)
 		}
 	case "peer":
 		payload := want
